@@ -418,10 +418,11 @@ var kinds = []string{"ctx", "errch", "cancelch"}
 // exercised by exactly one corpus scenario.
 func gen(rng *rand.Rand, tier string) []string {
 	steps := 12 + rng.Intn(18)
-	maxP, maxA := 3, 6
+	maxP, maxA, maxCA := 3, 5, 3
 	if tier == "thorough" {
-		steps, maxP, maxA = 20+rng.Intn(50), 5, 12
+		steps, maxP, maxA, maxCA = 20+rng.Intn(40), 4, 8, 4
 	}
+	nca := 0
 	var out []string
 	np, na := 0, 0
 	var cont []bool   // await i is a container await
@@ -439,7 +440,14 @@ func gen(rng *rand.Rand, tier string) []string {
 	}
 	out = append(out, "newp")
 	np = 1
+	pendingSettle := 0
 	for i := 0; i < steps; i++ {
+		if pendingSettle > 0 {
+			pendingSettle--
+			if pendingSettle == 0 {
+				out = append(out, "settle")
+			}
+		}
 		r := rng.Intn(100)
 		switch {
 		case r < 8 && np < maxP:
@@ -463,7 +471,8 @@ func gen(rng *rand.Rand, tier string) []string {
 			cont = append(cont, false)
 			akind = append(akind, "")
 			na++
-		case r < 54 && na < maxA && useCont:
+		case r < 54 && na < maxA && nca < maxCA && useCont:
+			nca++
 			kk := k()
 			out = append(out, "cawait "+kk)
 			cont = append(cont, true)
@@ -495,11 +504,19 @@ func gen(rng *rand.Rand, tier string) []string {
 				out = append(out, "settle", "csetp nil", "settle")
 				curNil = true
 			} else {
-				out = append(out, fmt.Sprintf("%s %d", sync("csetp"), rng.Intn(np)))
+				w := sync("csetp")
+				out = append(out, fmt.Sprintf("%s %d", w, rng.Intn(np)))
+				if w[0] == 'a' {
+					pendingSettle = 2
+				}
 				curNil = false
 			}
 		case r < 86 && useCont:
-			out = append(out, sync("cres")+" "+e())
+			w := sync("cres")
+			out = append(out, w+" "+e())
+			if w[0] == 'a' {
+				pendingSettle = 2
+			}
 			curNil = false
 		case r < 90:
 			out = append(out, "pause")
